@@ -16,11 +16,11 @@ func CheckPool(e *Env, prop string) (int, error) {
 	if err := e.RefSelfTest(bin); err != nil {
 		return 2, err
 	}
-	var binPure string
-	if e.Tier == "thorough" {
-		if binPure, err = e.Build(simrunPurego); err != nil {
-			return 2, err
-		}
+	// both builds, alternating by round (state that only one build keeps
+	// between calls - a pool, a cache - is history like any other)
+	binPure, err := e.Build(simrunPurego)
+	if err != nil {
+		return 2, err
 	}
 	a := newAgg()
 	budget := budgetSeconds(e.Tier, 30, 840)
